@@ -2,6 +2,7 @@ import Femio.Driver.Proto
 import Femio.Driver.C01
 import Femio.Model.FistrCnt
 import Femio.Model.FistrCntCanon
+import Femio.Model.FistrCntHist
 /-! driver commands for C03 (FrontISTR `.cnt`)
 
 ```
@@ -9,6 +10,10 @@ c03.write <cntin>                      -> ok 1 <list line> | ok 0
 c03.read <list group> <list line>      -> ok 1 <cntread>   | ok 0
 c03.expected <cntin>                   -> ok <wf> <cntread>   (wf = decide (Femio.C03.WFCnt c), cntread = expectedCnt c:
                                           hypothesis and right-hand side of theorem C03_file_roundtrip)
+c03.hist <cfg> <cntin> <list op>       -> ok <cntin>       ((ObjSt.fresh c).run ops).view ⟨cfg⟩: cfg = 1 the object's current
+                                          public state (.ids, .data) = what write_cnt takes; cfg = 0 what its pandas frames hold
+op      := t <k> <aop(list(opt sci))> | s <k> <aop(sci)> | pt <k> opt(table) | ps <k> opt(slist) | sol str      k := 0 | 1 | 2
+aop(ρ)  := cell <r> <c> opt(sci)  (tables only: arr[r, c] = v) | row <r> ρ (arr[r] = ρ) | set list(ρ) | wt list(nat) list(ρ)
 cntin   := str bool opt(table) opt(table) opt(table) opt(slist) opt(slist) opt(slist)
 table   := list(id list(opt sci))      slist := list(id sci)
 cntread := str opt(rtable) opt(rtable) opt(rtable) opt(rslist) opt(rslist) opt(rslist)
@@ -34,7 +39,51 @@ def showCntRead (r : CntRead) : String :=
   String.intercalate " " [escape r.solution, showOpt showTable r.boundary, showOpt showTable r.spring,
     showOpt showTable r.cload, showOpt showSList r.fixtemp, showOpt showSList r.cflux, showOpt showSList r.pureCflux]
 
+def showSci (x : Sci) : String := s!"{showBool x.neg} {x.mant} {x.exp}"
+def showTableS (t : List (Cnt.Row Sci)) : String :=
+  showList (fun (r : Cnt.Row Sci) => s!"{r.1} " ++ showList (showOpt showSci) r.2) t
+def showSListS (t : List (Nat × Sci)) : String := showList (fun (r : Nat × Sci) => s!"{r.1} " ++ showSci r.2) t
+def showCntIn (c : CntIn) : String :=
+  String.intercalate " " [escape c.solution, showBool c.onlySolid, showOpt showTableS c.boundary, showOpt showTableS c.spring,
+    showOpt showTableS c.cload, showOpt showSListS c.fixtemp, showOpt showSListS c.cflux, showOpt showSListS c.pureCflux]
+
+def tkindP : P TKind := do
+  let k ← nat
+  match k with | 0 => pure .boundary | 1 => pure .spring | 2 => pure .cload | _ => failure
+def skindP : P SKind := do
+  let k ← nat
+  match k with | 0 => pure .fixtemp | 1 => pure .cflux | 2 => pure .pureCflux | _ => failure
+
+def aopP {ρ} (rowP : P ρ) (cellOp : Nat → Nat → Option Sci → Option (ρ → ρ)) : P (AttrOp ρ) := do
+  let t ← tok
+  match t with
+  | "cell" => do
+    let r ← nat; let c ← nat; let v ← optOf sciP
+    match cellOp r c v with
+    | some f => pure (.poke r f)
+    | none => failure
+  | "row" => do let r ← nat; let x ← rowP; pure (.poke r (fun _ => x))
+  | "set" => do let d ← listOf rowP; pure (.setData d)
+  | "wt" => do let pos ← listOf nat; let d ← listOf rowP; pure (.writeThrough pos d)
+  | _ => failure
+
+def objOpP : P ObjOp := do
+  let t ← tok
+  match t with
+  | "t" => do
+    let k ← tkindP
+    let op ← aopP (listOf (optOf sciP)) (fun _ c v => some (fun (row : TRow) => row.set c v))
+    pure (.table k op)
+  | "s" => do let k ← skindP; let op ← aopP sciP (fun _ _ _ => none); pure (.scalar k op)
+  | "pt" => do let k ← tkindP; let r ← optOf tableP; pure (.putTable k r)
+  | "ps" => do let k ← skindP; let r ← optOf slistP; pure (.putScalar k r)
+  | "sol" => do let s ← str; pure (.solution s)
+  | _ => failure
+
 def handle : List String → Option String
+  | "c03.hist" :: rest => do
+    let (cfg, c, ops) ← run (do let b ← bool; let c ← cntInP; let o ← listOf objOpP; pure (b, c, o)) rest
+    some ("ok " ++ showCntIn (((ObjSt.fresh c).run ops).view ⟨cfg⟩))
   | "c03.write" :: rest => do
     let c ← run cntInP rest
     match writeCnt c with
